@@ -290,3 +290,85 @@ class ReturnedCertificateTask(Task):
 def jsonable_cfg(cfg):
     import json
     return json.loads(json.dumps(cfg, default=str))
+
+
+# ---- call history: what a function returned earlier must not influence what it returns later ------------------------------
+def _scribble(x):
+    """in-place modification of every array a caller could reach through a returned object"""
+    import scipy.sparse as sp
+    if isinstance(x, np.ndarray):
+        if x.dtype.kind in "fc" and x.flags.writeable:
+            x *= 1.25
+            x += 0.5
+        elif x.dtype.kind in "iub" and x.flags.writeable:
+            x += 1
+    elif sp.issparse(x):
+        try:
+            x.data *= 1.25
+        except Exception:  # noqa: BLE001
+            pass
+    elif isinstance(x, (list, tuple)):
+        for y in x:
+            _scribble(y)
+        if isinstance(x, list) and x:
+            x.reverse()
+    elif isinstance(x, dict):
+        for y in x.values():
+            _scribble(y)
+
+
+def _same(a, b):
+    import scipy.sparse as sp
+    if sp.issparse(a) or sp.issparse(b):
+        a = a.toarray() if sp.issparse(a) else a
+        b = b.toarray() if sp.issparse(b) else b
+    if isinstance(a, (list, tuple)):
+        return isinstance(b, (list, tuple)) and len(a) == len(b) and all(_same(x, y) for x, y in zip(a, b))
+    if isinstance(a, dict):
+        return isinstance(b, dict) and a.keys() == b.keys() and all(_same(a[k], b[k]) for k in a)
+    try:
+        return np.shape(a) == np.shape(b) and bool(np.allclose(np.asarray(a, dtype=complex), np.asarray(b, dtype=complex), atol=1e-12))
+    except Exception:  # noqa: BLE001
+        return a == b
+
+
+class HistoryTask(Task):
+    """The same call, made again after the caller has modified in place what an earlier identical call returned, returns the same
+    value (no state shared through caches or module-level buffers).  A concrete execution of the real function - the call history
+    is the point, values are not quantified; the symbolic obligations of the same function decide what the value must be."""
+    engine = "concrete-history (real function, call / modify the returned object in place / call again)"
+
+    def __init__(self, name, cfg, fn):
+        super().__init__(name, cfg)
+        self.fn = fn
+
+    def _go(self):
+        import copy
+        r1 = self.fn()
+        want = copy.deepcopy(r1)
+        _scribble(r1)
+        r2 = self.fn()
+        return want, r2
+
+    def _run(self, rec, seed):
+        try:
+            want, got = self._go()
+        except Exception as e:  # noqa: BLE001
+            rec["status"] = "violation"
+            rec["violation"] = {"source": "the repeated call raises (reproduced)", "inputs": jsonable(self.cfg), "exception": f"{type(e).__name__}: {str(e)[:300]}"}
+            return
+        rec["reachable"] = True
+        if _same(want, got):
+            rec["status"] = "discharged"
+        else:
+            rec["status"] = "violation"
+            rec["violation"] = {"source": "a second identical call returns a different value after the caller modified the first result in place (reproduced on the real function)",
+                                "inputs": jsonable(self.cfg), "actual": jsonable(got), "expected": jsonable(want)}
+
+    def replay(self, rp):
+        try:
+            want, got = self._go()
+        except Exception as e:  # noqa: BLE001
+            print({"exception": f"{type(e).__name__}: {e}"})
+            return False
+        return _same(want, got)
